@@ -13,6 +13,14 @@ type GenCfg struct {
 	ForkBudget  int  // number of fork events (events whose self-parent is not a tip / is missing)
 	PrevParents bool // other-parent menu also offers the self-parent of the other validator's tip
 	MaxLevelSet int  // cap on the number of DAGs kept per level (0 = none); hitting it is reported
+	// SubsetParents: when another validator has several tips (a fork), an event may take any non-empty
+	// subset of them as parents (so a single event can observe the fork directly).
+	SubsetParents bool
+	// ForkerOnly >= 0 restricts fork events to that validator position; -1/0 value semantics: see UseForkerOnly.
+	ForkerOnly    int
+	UseForkerOnly bool
+	// MaxOwn bounds the number of events per validator (0 = no bound).
+	MaxOwn int
 }
 
 type genState struct {
@@ -55,6 +63,9 @@ func successors(s genState, cfg GenCfg, emit func(genState)) {
 	n := len(d.Weights)
 	for v := 0; v < n; v++ {
 		own := ownEvents(d, v)
+		if cfg.MaxOwn > 0 && len(own) >= cfg.MaxOwn {
+			continue
+		}
 		tp := tips(d, v)
 		type spOpt struct {
 			sp   int
@@ -69,7 +80,7 @@ func successors(s genState, cfg GenCfg, emit func(genState)) {
 				isTip[t] = true
 				sps = append(sps, spOpt{t, false})
 			}
-			if s.forks < cfg.ForkBudget {
+			if s.forks < cfg.ForkBudget && (!cfg.UseForkerOnly || cfg.ForkerOnly == v) {
 				sps = append(sps, spOpt{-1, true})
 				for _, o := range own {
 					if !isTip[o] {
@@ -79,24 +90,40 @@ func successors(s genState, cfg GenCfg, emit func(genState)) {
 			}
 		}
 		// other-parent menus
-		menus := make([][]int, 0, n-1)
+		// a menu entry is a list of parents taken from one other validator
+		menus := make([][][]int, 0, n-1)
 		for u := 0; u < n; u++ {
 			if u == v {
 				continue
 			}
-			m := []int{-1}
-			for _, t := range tips(d, u) {
-				m = append(m, t)
+			m := [][]int{nil}
+			ut := tips(d, u)
+			for _, t := range ut {
+				m = append(m, []int{t})
 				if cfg.PrevParents {
 					if sp := d.SelfParent(t); sp >= 0 {
-						m = append(m, sp)
+						m = append(m, []int{sp})
 					}
+				}
+			}
+			if cfg.SubsetParents && len(ut) > 1 {
+				for mask := 1; mask < 1<<uint(len(ut)); mask++ {
+					if mask&(mask-1) == 0 {
+						continue // singletons are already there
+					}
+					var sub []int
+					for k, t := range ut {
+						if mask&(1<<uint(k)) != 0 {
+							sub = append(sub, t)
+						}
+					}
+					m = append(m, sub)
 				}
 			}
 			menus = append(menus, m)
 		}
 		for _, so := range sps {
-			choice := make([]int, len(menus))
+			choice := make([][]int, len(menus))
 			var rec func(k int)
 			rec = func(k int) {
 				if k == len(menus) {
@@ -107,8 +134,8 @@ func successors(s genState, cfg GenCfg, emit func(genState)) {
 						ev.Parents = append(ev.Parents, so.sp)
 						lam = d.Events[so.sp].Lamport
 					}
-					for _, p := range choice {
-						if p >= 0 {
+					for _, ps := range choice {
+						for _, p := range ps {
 							ev.Parents = append(ev.Parents, p)
 							if d.Events[p].Lamport > lam {
 								lam = d.Events[p].Lamport
@@ -119,6 +146,12 @@ func successors(s genState, cfg GenCfg, emit func(genState)) {
 						return
 					}
 					ev.Lamport = lam + 1
+					// an event identical in content to an existing one is the same event, not a fork
+					for _, old := range d.Events {
+						if old.Creator == ev.Creator && old.Seq == ev.Seq && sameParents(old.Parents, ev.Parents, ev.Seq > 1) {
+							return
+						}
+					}
 					nd := d.Clone()
 					nd.Events = append(nd.Events, ev)
 					f := s.forks
@@ -171,4 +204,125 @@ func GenAll(cfg GenCfg, minEvents int, visit func(d *lref.DAG)) (perLevel []int,
 		}
 	}
 	return
+}
+
+func sameParents(a, b []int, selfParentFirst bool) bool {
+	if len(a) != len(b) {
+		return false
+	}
+	if selfParentFirst && len(a) > 0 && a[0] != b[0] {
+		return false
+	}
+	in := map[int]int{}
+	for _, x := range a {
+		in[x]++
+	}
+	for _, x := range b {
+		in[x]--
+	}
+	for _, v := range in {
+		if v != 0 {
+			return false
+		}
+	}
+	return true
+}
+
+// GenStarFork enumerates a structured multi-fork family: validator 0 (X) creates THREE conflicting
+// events of the same sequence number (seq 1, or seq 2 on top of x1), distinguished by which of the
+// base events y1/z1 they reference; observers Y and Z then take every subset of X's branches as
+// parents (so one event can observe two or three branches at once, before any of its ancestors did).
+func GenStarFork(w WeightVec, epoch uint32, withTail bool, visit func(d *lref.DAG)) int {
+	count := 0
+	subsets := [][]int{{}, {0}, {1}, {0, 1}} // over base events y1 (index 0), z1 (index 1)
+	for forkSeq := 1; forkSeq <= 2; forkSeq++ {
+		for skip := 0; skip < 4; skip++ { // which of the 4 subsets is not used by a branch
+			base := &lref.DAG{Weights: w.W, IDs: w.IDs, Epoch: epoch}
+			add := func(d *lref.DAG, creator, sp int, others []int) int {
+				ev := lref.Event{Creator: creator, Seq: 1}
+				lam := 0
+				if sp >= 0 {
+					ev.Seq = d.Events[sp].Seq + 1
+					ev.Parents = append(ev.Parents, sp)
+					lam = d.Events[sp].Lamport
+				}
+				for _, p := range others {
+					ev.Parents = append(ev.Parents, p)
+					if d.Events[p].Lamport > lam {
+						lam = d.Events[p].Lamport
+					}
+				}
+				ev.Lamport = lam + 1
+				d.Events = append(d.Events, ev)
+				return len(d.Events) - 1
+			}
+			y1 := add(base, 1, -1, nil)
+			z1 := add(base, 2, -1, nil)
+			x1 := -1
+			if forkSeq == 2 {
+				x1 = add(base, 0, -1, nil)
+			}
+			var br []int
+			for si, sub := range subsets {
+				if si == skip {
+					continue
+				}
+				var others []int
+				for _, b := range sub {
+					others = append(others, []int{y1, z1}[b])
+				}
+				if forkSeq == 1 && len(others) == 0 {
+					// seq-1 event without parents: fine, it is the "plain" first event
+				}
+				br = append(br, add(base, 0, x1, others))
+			}
+			for ym := 1; ym < 8; ym++ {
+				for yz := 0; yz < 2; yz++ {
+					d1 := base.Clone()
+					var ps []int
+					for k := 0; k < 3; k++ {
+						if ym&(1<<uint(k)) != 0 {
+							ps = append(ps, br[k])
+						}
+					}
+					if yz == 1 {
+						ps = append(ps, z1)
+					}
+					y2 := add(d1, 1, y1, ps)
+					for zm := 0; zm < 8; zm++ {
+						for zy := 0; zy < 2; zy++ {
+							if zm == 0 && zy == 0 {
+								continue
+							}
+							d2 := d1.Clone()
+							var zp []int
+							for k := 0; k < 3; k++ {
+								if zm&(1<<uint(k)) != 0 {
+									zp = append(zp, br[k])
+								}
+							}
+							if zy == 1 {
+								zp = append(zp, y2)
+							}
+							z2 := add(d2, 2, z1, zp)
+							tails := [][]int{nil}
+							if withTail {
+								tails = [][]int{nil, {z2}}
+							}
+							for ti, tl := range tails {
+								d3 := d2.Clone()
+								if ti > 0 || withTail {
+									add(d3, 1, y2, tl)
+								}
+								d3.AssignFrames()
+								count++
+								visit(d3)
+							}
+						}
+					}
+				}
+			}
+		}
+	}
+	return count
 }
